@@ -6,9 +6,9 @@ EXTENDS Pool, Json, IOUtils
 ScJ == JsonDeserialize(IOEnv.POOLSC)
 
 ToSet(s) == {s[i] : i \in 1..Len(s)}
-FixTx(x) == [ins |-> ToSet(x.ins), refs |-> ToSet(x.refs), outs |-> ToSet(x.outs), kind |-> x.kind, w |-> x.w]
+FixTx(x) == [ins |-> ToSet(x.ins), refs |-> ToSet(x.refs), outs |-> ToSet(x.outs), kind |-> x.kind, w |-> x.w, lo |-> x.lo, hi |-> x.hi]
 FixSc(c) ==
-    [n |-> c.n, v1ok |-> c.v1ok, maxpool |-> c.maxpool, maxblock |-> c.maxblock, parent |-> c.parent, height |-> c.height, body |-> c.body,
+    [n |-> c.n, maxpool |-> c.maxpool, maxblock |-> c.maxblock, parent |-> c.parent, height |-> c.height, body |-> c.body,
      creates |-> [b \in 1..c.n |-> ToSet(c.creates[b])],
      spends  |-> [b \in 1..c.n |-> ToSet(c.spends[b])],
      ntx |-> c.ntx, tx |-> [t \in 1..c.ntx |-> FixTx(c.tx[t])],
